@@ -309,6 +309,47 @@ def derive_matrix():
     return out
 
 
+def probe_gdefs():
+    """the definitions of the derive matrix and of the two boundary probes as definitions before
+    instantiation of Model/Generic.v: {pid: (gdef sexp, argument type sexp)}"""
+    from .tygen import Def, Universe, gdef_sexp
+    U = Universe()
+    u8, A = ("prim", "u8"), ("param", "A")
+    uses = {"bare": (A, "(vec u32)"), "vec": (("vec", A), "u32"), "opt": (("opt", A), "string"), "arr": (("arr", 2, A), "u16"),
+            "bslice": (("bslice", A), "u64"), "nest": (("vec", ("vec", A)), "u8")}
+    out = {}
+    for uid, (F, arg) in uses.items():
+        shapes = {
+            "struct_named": Def("D", "struct", "none", [], ["A"], [], [("n", u8), ("f", F)]),
+            "struct_tuple": Def("D", "struct", "none", [], ["A"], [], [("0", u8), ("1", F)], style="tuple"),
+            "enum_tuple": Def("D", "enum", "none", [], ["A"], [], [("U", "unit", []), ("T", "tuple", [("0", u8), ("1", F)])]),
+            "enum_named": Def("D", "enum", "none", [], ["A"], [], [("U", "unit", []), ("N", "named", [("n", u8), ("f", F)])]),
+        }
+        for sid, d in shapes.items():
+            out["m_%s_%s" % (sid, uid)] = (gdef_sexp(U, d), arg)
+    out["b_bare_and_mentioned_struct"] = (gdef_sexp(U, Def("S", "struct", "none", [], ["A"], [], [("a", A), ("p", ("ph", A))])), "u32")
+    out["b_bare_and_mentioned_enum"] = (gdef_sexp(U, Def("E", "enum", "none", [], ["A"], [], [("T", "tuple", [("0", A), ("1", u8)]), ("S", "named", [("x", ("vec", A))])])), "u32")
+    out["g_two_bare"] = (gdef_sexp(U, Def("S", "struct", "none", [], ["A", "B"], [], [("a", A), ("b", ("param", "B")), ("a2", A)])), "(vec u8) string")
+    return out
+
+
+def generic_predictions(workdir):
+    """wf_gdef of the extracted model on the probe definitions: {pid: '1' | '0'}"""
+    g = probe_gdefs()
+    path = os.path.join(workdir, "generic_cases.txt")
+    os.makedirs(workdir, exist_ok=True)
+    write_lines(path, ["G %s - %s %s" % (pid, gd, arg) for pid, (gd, arg) in g.items()])
+    rc, out, err = run([os.path.join(DRIVER, "_build", "model_run"), "codec", path], timeout=600)
+    res = {}
+    for l in out.splitlines():
+        ps = l.split(" ")
+        if len(ps) >= 3 and ps[1] == "gen":
+            res[ps[0]] = ps[2].split("=")[1]
+    if rc != 0:
+        res["_error"] = err[-500:]
+    return res
+
+
 def c05_probes():
     out = []
     for (pid, expect, known, what, src, run) in derive_matrix():
